@@ -5,6 +5,12 @@ VERIF = os.path.dirname(os.path.dirname(os.path.abspath(__file__)))
 
 # id -> (level category, technique, level text, level note, design ref)
 CHECKS = {
+ "C01": ("model_checking", "bounded exhaustive enumeration of expressions x contexts x days on the real parser+evaluator against a minute-array reference model of the documented semantics",
+         "Every expression of the bounded family (1-3 rules from collision-forcing alphabets, all separators/modifiers, plus the repository's sample corpus) is evaluated on every day of the window in every calendar context and compared with the reference model M; M abstains (counted) where the documentation is silent.",
+         "Trusts M's transcription of the documented semantics (DESIGN §2.3; rows pinned to current behaviour are flagged), chrono date arithmetic. Expressions larger than the bound and days outside the window are not covered.", "DESIGN.md §3 C01"),
+ "C05": ("model_checking", "exhaustive enumeration of the sentences of the grammar up to a size bound (every AST x every combination of documented syntactic variants) against the AST the sentence denotes; single-field corruptions must be rejected",
+         "parse(sentence) must be == the generating AST for every rendering of every AST of the family by an independent printer (13 variant switches, full product on the relevant ones); negative family from the statement's list must be Err.",
+         "Trusts the engine's printer/variant table as the definition of 'documented relaxations' (transcribed from grammar.pest comments); strings outside it are not judged.", "DESIGN.md §3 C05"),
  "C10": ("model_checking", "complete enumeration of country x kind x date (1990..2085) on the real decoded calendars against an independent reader of the source text files; all [A-Za-z]{0,3} codes; PH/SH selectors through the real evaluator",
          "Exhaustive over a finite domain that strictly contains the data (1999..2075): every country, both calendars, every date, every short code string. Decides the property for the embedded data as built from the working tree.",
          "Trusts the source text files as ground truth, chrono date arithmetic, and flate2/LazyLock as used by the crate.", "DESIGN.md §3 C10"),
